@@ -198,6 +198,28 @@ func (f File) Validate() error {
 			if _, ok := branchTypes[fd.name()]; ok {
 				return fmt.Errorf("union %s branch %s has the name of another union's branch", un.Name, fd.name())
 			}
+			// an inline branch is a definition like any other
+			if _, ok := primitiveTypes[fd.name()]; ok {
+				return fmt.Errorf("union %s branch shares primitive type name %s", un.Name, fd.name())
+			}
+			branchFieldNames := map[string]struct{}{}
+			if fd.Struct != nil {
+				for _, sfd := range fd.Struct.Fields {
+					if _, ok := branchFieldNames[sfd.Name]; ok {
+						return fmt.Errorf("struct %s has duplicate field name %s", fd.Struct.Name, sfd.Name)
+					}
+					branchFieldNames[sfd.Name] = struct{}{}
+				}
+				structTypeUsage[fd.Struct.Name] = fd.Struct.usedTypes()
+			}
+			if fd.Message != nil {
+				for _, mfd := range fd.Message.Fields {
+					if _, ok := branchFieldNames[mfd.Name]; ok {
+						return fmt.Errorf("message %s has duplicate field name %s", fd.Message.Name, mfd.Name)
+					}
+					branchFieldNames[mfd.Name] = struct{}{}
+				}
+			}
 		}
 		for name := range unionNames {
 			branchTypes[name] = struct{}{}
